@@ -442,7 +442,7 @@ pub struct Violation {
 impl Violation {
     /// the class used by the minimiser: same invariant on the same operation kind
     pub fn class(&self) -> String {
-        format!("{}|{}|{}", self.invariant, self.ty.name(), self.c)
+        format!("{}|{}|{}", self.invariant, self.ty.name(), self.c).replace(' ', "_")
     }
     pub fn to_json(&self) -> J {
         J::obj()
